@@ -26,6 +26,12 @@ PLAN = {
             {"name": "n-hist-snap", "argv": [VNATIVE, "hist", "--property", "C03"]},
         ],
     },
+    "C04": {
+        "packages": ["vnative"],
+        "engines": [
+            {"name": "n-threads", "argv": [VNATIVE, "threads", "--property", "C04"]},
+        ],
+    },
     "C05": {
         "packages": ["vnative"],
         "engines": [
@@ -130,6 +136,13 @@ META = {
         "technique": "property-based testing with a history invariant: full snapshots of every readable executable mapping between all steps of generated install histories; diff must lie inside named targets' 16-byte entry slots or injector-created trampoline pages",
         "text": "480 (quick) / 1.6*10^4 (thorough) generated histories with ~6 full executable-memory snapshots each (program text, all shared objects, vdso, arenas, trampolines; ~10 MB per snapshot). Targets sit between live neighbours at +/-16 bytes in synthetic arenas (incl. the last slot of a page), next to another instantiation of the same generic function and next to libc neighbours. Every differing byte between consecutive snapshots must be within 16 bytes of a target named so far or inside a mapping the interposer saw the injector create; after the drop the diff against the first snapshot must be empty; never-named functions are called at every observation point.",
         "note": NATIVE_NOTE,
+    },
+    "C04": {
+        "level": "exploration",
+        "design_ref": "DESIGN.md §4 C04",
+        "technique": "property-based testing over thread scripts with a harness-perturbed schedule: generated per-thread operation scripts and a generated plan of pause points inside the interposed platform calls (the thread holding the lock waits inside an installation / inside the injector's drop so that a waiting thread will run in the window if the lock lets it); oracle = holder-count invariant + per-holder observed-value invariant + completion",
+        "text": "1.6*10^3 (quick) / 2.4*10^4 (thorough) runs of 2..8 real threads with 1..12 operations each (~4*10^4 / 6*10^5 acquisitions, ~10% contended). Measured holders must never exceed one (the measured period is a subset of the true holding period, so an overlap implies a real one), a preventer must see only the original value and injector t only its own fake for the whole period, acquisitions after a panicking holder must succeed, every script must finish. Schedules are sampled with widened windows, not enumerated; a replay re-runs the saved script 50 times.",
+        "note": NATIVE_NOTE + " Interleavings that differ only inside the library between two lock operations are not distinguishable by this harness. A run that does not finish is a violation only if every waiter provably sits in futex() while no measured holder exists; otherwise exit 2.",
     },
     "C05": {
         "level": "fault_enumeration",
